@@ -14,24 +14,24 @@ namespace Restore
     does and wherever it is aborted by a panic (any hook call `K`, any `panic` statement, inside deferred
     calls, during an earlier panic, recovered by compiled code or not), afterwards `EFStartDefer` is clear
     and `EFDefer`, `DeferOfFun`, `CurrEnv` have their values from before the evaluation. -/
-theorem abort_restores (P : Prog) (fuel : Nat) (kind : Kind) (f : Nat) (s : St) (h : s.run.efStart = false) :
-    (evalTop P fuel kind f s).2.run.efStart = false ∧
-    (evalTop P fuel kind f s).2.run.efDefer = s.run.efDefer ∧
-    (evalTop P fuel kind f s).2.run.deferOfFun = s.run.deferOfFun ∧
-    (evalTop P fuel kind f s).2.run.currEnv = s.run.currEnv := by
+theorem abort_restores (P : Prog) (fuel : Nat) (dbg : Bool) (kind : Kind) (f : Nat) (s : St) (h : s.run.efStart = false) :
+    (evalTop P fuel dbg kind f s).2.run.efStart = false ∧
+    (evalTop P fuel dbg kind f s).2.run.efDefer = s.run.efDefer ∧
+    (evalTop P fuel dbg kind f s).2.run.deferOfFun = s.run.deferOfFun ∧
+    (evalTop P fuel dbg kind f s).2.run.currEnv = s.run.currEnv := by
   have fr := frame_all P fuel
   unfold evalTop
   cases kind with
   | callF =>
     simp only
-    have hb := fr.2.1 f { s with run := { s.run with sync := .none, currEnv := some 0 } }
-    rcases hcf : callFn P fuel f { s with run := { s.run with sync := .none, currEnv := some 0 } } with ⟨o, s1⟩
+    have hb := fr.2.1 f { s with run := applyDebugOp dbg { s.run with sync := .none, currEnv := some 0 } }
+    rcases hcf : callFn P fuel f { s with run := applyDebugOp dbg { s.run with sync := .none, currEnv := some 0 } } with ⟨o, s1⟩
     rw [hcf] at hb
     exact ⟨hb.2.2 h, hb.1, hb.2.1, trivial⟩
   | topCode =>
     simp only
-    have hb := fr.2.2.1 f 0 { s with run := { s.run with sync := .none, currEnv := some 0 } }
-    rcases hcf : execFn P fuel f 0 { s with run := { s.run with sync := .none, currEnv := some 0 } } with ⟨o, s1⟩
+    have hb := fr.2.2.1 f 0 { s with run := applyDebugOp dbg { s.run with sync := .none, currEnv := some 0 } }
+    rcases hcf : execFn P fuel f 0 { s with run := applyDebugOp dbg { s.run with sync := .none, currEnv := some 0 } } with ⟨o, s1⟩
     rw [hcf] at hb
     exact ⟨hb.2.2 h, hb.1, hb.2.1, trivial⟩
 
@@ -48,80 +48,129 @@ theorem execFn_dead (P : Prog) (fuel f env : Nat) (s : St) (i : Intr) (y : Sig) 
     simp only [execFn]
     split
     · rcases hro : runOps P fuel (P.body f) { env := env, flags := true }
-          { s with run := { s.run with sync := .none, efDefer := s.run.efStart, efStart := false, interrupt := .nil } } with ⟨o, a1, s1⟩
+          { s with run := { s.run with sync := .none, efDefer := s.run.efStart, efStart := false, interrupt := .nil, efDebug := s.run.sigDebug }, atc := s.atc || s.run.sigDebug } with ⟨o, a1, s1⟩
       rcases hrd : runDefers P fuel env a1.defers o none s1 with ⟨o2, sv2, s2⟩
       simp only
       cases sv2 <;> exact ⟨trivial, i, .none, rfl⟩
     · rcases hro : runOps P fuel (P.body f) { env := env, flags := false }
-          { s with run := { s.run with sync := .none, interrupt := .nil } } with ⟨o, a1, s1⟩
+          { s with run := { s.run with sync := .none, interrupt := .nil }, atc := s.atc || s.run.sigDebug } with ⟨o, a1, s1⟩
       cases o with
       | ok => exact ⟨rfl, i, .none, rfl⟩
       | panic v => exact ⟨rfl, s1.run.interrupt, s1.run.sync, rfl⟩
 
 
-/-- **dead_fields.**  `Run.Interrupt` and `Signals.Sync` are dead at the start of an evaluation: whatever an
-    aborted evaluation left in them, the next evaluation has the same outcome, the same `recover()`/`try`
-    observations and leaves the same state (up to these two fields, which are dead again). -/
-theorem dead_fields (P : Prog) (fuel : Nat) (kind : Kind) (f : Nat) (s : St) (i : Intr) (y : Sig) :
-    (evalTop P fuel kind f { s with run := { s.run with interrupt := i, sync := y } }).1 = (evalTop P fuel kind f s).1 ∧
-    SameLive (evalTop P fuel kind f { s with run := { s.run with interrupt := i, sync := y } }).2 (evalTop P fuel kind f s).2 := by
-  unfold evalTop
-  cases kind with
-  | topCode =>
-    simp only
-    have h := execFn_dead P fuel f 0 { s with run := { s.run with sync := .none, currEnv := some 0 } } i .none
-    simp only at h
-    rcases h1 : execFn P fuel f 0 { s with run := { s.run with sync := .none, currEnv := some 0 } } with ⟨o, t⟩
-    rcases h2 : execFn P fuel f 0 { s with run := { s.run with interrupt := i, sync := .none, currEnv := some 0 } } with ⟨o', t'⟩
-    rw [h1, h2] at h
+/-- the state in which `RunExpr` / `DebugExpr` start running the code -/
+def baseSt (dbg : Bool) (s : St) : St :=
+  { s with run := applyDebugOp dbg { s.run with sync := .none, currEnv := some 0 } }
+
+theorem evalTop_eq (P : Prog) (fuel : Nat) (dbg : Bool) (kind : Kind) (f : Nat) (s : St) :
+    evalTop P fuel dbg kind f s =
+      ((match kind with
+        | .callF => callFn P fuel f (baseSt dbg s)
+        | .topCode => execFn P fuel f 0 (baseSt dbg s)).1,
+       { (match kind with
+        | .callF => callFn P fuel f (baseSt dbg s)
+        | .topCode => execFn P fuel f 0 (baseSt dbg s)).2 with
+         run := { (match kind with
+        | .callF => callFn P fuel f (baseSt dbg s)
+        | .topCode => execFn P fuel f 0 (baseSt dbg s)).2.run with currEnv := s.run.currEnv } }) := by
+  unfold evalTop baseSt
+  cases kind <;> rfl
+
+theorem callFn_dead (P : Prog) (fuel f : Nat) (s : St) (i : Intr) (y : Sig) :
+    (callFn P fuel f { s with run := { s.run with interrupt := i, sync := y } }).1 = (callFn P fuel f s).1 ∧
+    SameLive (callFn P fuel f { s with run := { s.run with interrupt := i, sync := y } }).2 (callFn P fuel f s).2 := by
+  cases fuel with
+  | zero => simp only [callFn]; exact ⟨trivial, i, y, rfl⟩
+  | succ fuel =>
+    simp only [callFn]
+    have h := execFn_dead P fuel f s.nextEnv
+      { s with nextEnv := s.nextEnv + 1, run := { s.run with currEnv := some s.nextEnv } } i y
+    generalize execFn P fuel f s.nextEnv
+      { s with nextEnv := s.nextEnv + 1, run := { s.run with currEnv := some s.nextEnv } } = r at h
+    generalize execFn P fuel f s.nextEnv _ = r' at h ⊢
+    obtain ⟨o, t⟩ := r
+    obtain ⟨o', t'⟩ := r'
     obtain ⟨ho, j, z, ht⟩ := h
     simp only at ho ht
     subst ho ht
-    exact ⟨rfl, j, z, rfl⟩
+    cases o' <;> exact ⟨rfl, j, z, rfl⟩
+
+/-- **dead_fields.**  `Run.Interrupt` and `Signals.Sync` are dead at the start of an evaluation: whatever an
+    aborted evaluation left in them, the next evaluation has the same outcome, the same `recover()`/`try`
+    observations and leaves the same state (up to these two fields, which are dead again). -/
+theorem dead_fields (P : Prog) (fuel : Nat) (dbg : Bool) (kind : Kind) (f : Nat) (s : St) (i : Intr) (y : Sig) :
+    (evalTop P fuel dbg kind f { s with run := { s.run with interrupt := i, sync := y } }).1 = (evalTop P fuel dbg kind f s).1 ∧
+    SameLive (evalTop P fuel dbg kind f { s with run := { s.run with interrupt := i, sync := y } }).2 (evalTop P fuel dbg kind f s).2 := by
+  rw [evalTop_eq, evalTop_eq]
+  have key : baseSt dbg { s with run := { s.run with interrupt := i, sync := y } } =
+      { baseSt dbg s with run := { (baseSt dbg s).run with interrupt := i, sync := .none } } := rfl
+  rw [key]
+  cases kind with
   | callF =>
     simp only
-    cases fuel with
-    | zero => simp only [callFn]; exact ⟨trivial, i, .none, rfl⟩
-    | succ fuel =>
-      simp only [callFn]
-      have h := execFn_dead P fuel f s.nextEnv
-        { s with nextEnv := s.nextEnv + 1, run := { s.run with sync := .none, currEnv := some s.nextEnv } } i .none
-      simp only at h
-      rcases h1 : execFn P fuel f s.nextEnv
-        { s with nextEnv := s.nextEnv + 1, run := { s.run with sync := .none, currEnv := some s.nextEnv } } with ⟨o, t⟩
-      rcases h2 : execFn P fuel f s.nextEnv
-        { s with nextEnv := s.nextEnv + 1, run := { s.run with interrupt := i, sync := .none, currEnv := some s.nextEnv } } with ⟨o', t'⟩
-      rw [h1, h2] at h
-      obtain ⟨ho, j, z, ht⟩ := h
-      simp only at ho ht
-      subst ho ht
-      cases o' <;> exact ⟨rfl, j, z, rfl⟩
+    obtain ⟨h1, j, z, h2⟩ := callFn_dead P fuel f (baseSt dbg s) i .none
+    rw [h2]
+    exact ⟨h1, j, z, rfl⟩
+  | topCode =>
+    simp only
+    obtain ⟨h1, j, z, h2⟩ := execFn_dead P fuel f 0 (baseSt dbg s) i .none
+    rw [h2]
+    exact ⟨h1, j, z, rfl⟩
 
+/-- **the debugger mode is dead at the start of an evaluation**: `RunExpr` / `DebugExpr` rewrite `EFDebug`,
+    `DebugDepth` and `Signals.Debug` (`applyDebugOp`, BEFORE the code runs -- obligation `debug_op_calls`), so
+    whatever an aborted single-step evaluation left there, the next evaluation is exactly the same. -/
+theorem debug_fields_dead (P : Prog) (fuel : Nat) (dbg : Bool) (kind : Kind) (f : Nat) (s : St) (a b c : Bool) :
+    evalTop P fuel dbg kind f { s with run := { s.run with efDebug := a, debugDepth := b, sigDebug := c } } =
+    evalTop P fuel dbg kind f s := by
+  rw [evalTop_eq, evalTop_eq]
+  have key : baseSt dbg { s with run := { s.run with efDebug := a, debugDepth := b, sigDebug := c } } = baseSt dbg s := rfl
+  rw [key]
+
+/-- **debugger mode after an evaluation**: nothing inside an evaluation changes it, so afterwards it is what
+    `RunExpr` (`dbg = false`: off) / `DebugExpr` (`dbg = true`: single-step) set at the start -- also when the
+    evaluation is aborted by a panic at any point.  In particular a plain evaluation never runs in single-step mode
+    and never calls the debugger (`atc` unchanged), whatever happened before. -/
+theorem debug_mode_after (P : Prog) (fuel : Nat) (dbg : Bool) (kind : Kind) (f : Nat) (s : St) :
+    (evalTop P fuel dbg kind f s).2.run.sigDebug = dbg ∧ (evalTop P fuel dbg kind f s).2.run.debugDepth = dbg ∧
+    (evalTop P fuel dbg kind f s).2.run.efDebug = dbg := by
+  rw [evalTop_eq]
+  have da := debug_all P fuel
+  cases kind with
+  | callF =>
+    simp only
+    have h := da.2.1 f (baseSt dbg s)
+    exact ⟨h.1, h.2.1, h.2.2 rfl⟩
+  | topCode =>
+    simp only
+    have h := da.2.2.1 f 0 (baseSt dbg s)
+    exact ⟨h.1, h.2.1, h.2.2 rfl⟩
 
 /-- **panic bookkeeping restored** (code with gomacro a642365, `savesPanic = true`): if no panic is recorded
     when the evaluation starts, none is recorded when it is over (normally or aborted at any point), and `Panic`
     has its old value: nothing is left for a later `recover()` (`stale_panicfun_harmless`, for all programs). -/
-theorem panic_bookkeeping_restored (P : Prog) (hfix : P.savesPanic = true) (fuel : Nat) (kind : Kind) (f : Nat) (s : St)
+theorem panic_bookkeeping_restored (P : Prog) (hfix : P.savesPanic = true) (fuel : Nat) (dbg : Bool) (kind : Kind) (f : Nat) (s : St)
     (h0 : s.run.panicFun = none) (hn : 0 < s.nextEnv) :
-    (evalTop P fuel kind f s).2.run.panicFun = none ∧
-    (evalTop P fuel kind f s).2.run.panicVal = s.run.panicVal ∧
-    s.nextEnv ≤ (evalTop P fuel kind f s).2.nextEnv := by
+    (evalTop P fuel dbg kind f s).2.run.panicFun = none ∧
+    (evalTop P fuel dbg kind f s).2.run.panicVal = s.run.panicVal ∧
+    s.nextEnv ≤ (evalTop P fuel dbg kind f s).2.nextEnv := by
   have pr := pair_all P hfix fuel
-  have hinv : Inv [] { s with run := { s.run with sync := .none, currEnv := some 0 } } :=
-    ⟨fun e he => by simp [h0] at he, fun e he => by cases he⟩
+  have hinv : Inv [] { s with run := applyDebugOp dbg { s.run with sync := .none, currEnv := some 0 } } :=
+    ⟨fun e he => by simp [applyDebugOp, h0] at he, fun e he => by cases he⟩
   unfold evalTop
   cases kind with
   | callF =>
     simp only
-    have hb := pr.2.1 [] f { s with run := { s.run with sync := .none, currEnv := some 0 } } hinv
-    rcases hcf : callFn P fuel f { s with run := { s.run with sync := .none, currEnv := some 0 } } with ⟨o, s1⟩
+    have hb := pr.2.1 [] f { s with run := applyDebugOp dbg { s.run with sync := .none, currEnv := some 0 } } hinv
+    rcases hcf : callFn P fuel f { s with run := applyDebugOp dbg { s.run with sync := .none, currEnv := some 0 } } with ⟨o, s1⟩
     rw [hcf] at hb
     have hp := hb.2.2 (fun _ e _ he => by cases he)
     exact ⟨hp.1.trans h0, hp.2, hb.2.1⟩
   | topCode =>
     simp only
-    have hb := pr.2.2.1 [] f 0 { s with run := { s.run with sync := .none, currEnv := some 0 } } hinv (by simp) hn
-    rcases hcf : execFn P fuel f 0 { s with run := { s.run with sync := .none, currEnv := some 0 } } with ⟨o, s1⟩
+    have hb := pr.2.2.1 [] f 0 { s with run := applyDebugOp dbg { s.run with sync := .none, currEnv := some 0 } } hinv (by simp) hn
+    rcases hcf : execFn P fuel f 0 { s with run := applyDebugOp dbg { s.run with sync := .none, currEnv := some 0 } } with ⟨o, s1⟩
     rw [hcf] at hb
     have hp := hb.2.2 (fun _ e _ he => by cases he)
     exact ⟨hp.1.trans h0, hp.2, hb.2.1⟩
@@ -135,25 +184,25 @@ def Idle (s : St) : Prop :=
     takes an idle interpreter back to an idle interpreter with the same `Panic`; by `dead_fields` the two
     remaining fields (`Interrupt`, `Sync`) cannot influence what follows.  Hence, by induction, this holds
     after any history of evaluations. -/
-theorem idle_preserved (P : Prog) (hfix : P.savesPanic = true) (fuel : Nat) (kind : Kind) (f : Nat) (s : St) (h : Idle s) :
-    Idle (evalTop P fuel kind f s).2 ∧ (evalTop P fuel kind f s).2.run.panicVal = s.run.panicVal := by
+theorem idle_preserved (P : Prog) (hfix : P.savesPanic = true) (fuel : Nat) (dbg : Bool) (kind : Kind) (f : Nat) (s : St) (h : Idle s) :
+    Idle (evalTop P fuel dbg kind f s).2 ∧ (evalTop P fuel dbg kind f s).2.run.panicVal = s.run.panicVal := by
   obtain ⟨h1, h2, h3, h4, h5, h6⟩ := h
-  have ha := abort_restores P fuel kind f s h1
-  have hp := panic_bookkeeping_restored P hfix fuel kind f s h5 h6
+  have ha := abort_restores P fuel dbg kind f s h1
+  have hp := panic_bookkeeping_restored P hfix fuel dbg kind f s h5 h6
   exact ⟨⟨ha.1, ha.2.1.trans h2, ha.2.2.1.trans h3, ha.2.2.2.trans h4, hp.1, Nat.lt_of_lt_of_le h6 hp.2.2⟩, hp.2.1⟩
 
 /-- any history of evaluations (each with its own program, fault point and fuel) from a fresh interpreter -/
-def evalHistory : List (Prog × Nat × Kind × Nat) → St → St
+def evalHistory : List (Prog × Nat × Bool × Kind × Nat) → St → St
   | [], s => s
-  | (P, fuel, kind, f) :: rest, s => evalHistory rest (evalTop P fuel kind f s).2
+  | (P, fuel, dbg, kind, f) :: rest, s => evalHistory rest (evalTop P fuel dbg kind f s).2
 
-theorem idle_after_history (h : List (Prog × Nat × Kind × Nat)) (hfix : ∀ x ∈ h, x.1.savesPanic = true) (s : St) (hs : Idle s) :
+theorem idle_after_history (h : List (Prog × Nat × Bool × Kind × Nat)) (hfix : ∀ x ∈ h, x.1.savesPanic = true) (s : St) (hs : Idle s) :
     Idle (evalHistory h s) ∧ (evalHistory h s).run.panicVal = s.run.panicVal := by
   induction h generalizing s with
   | nil => exact ⟨hs, rfl⟩
   | cons x rest ih =>
-    obtain ⟨P, fuel, kind, f⟩ := x
-    have h1 := idle_preserved P (hfix (P, fuel, kind, f) (List.Mem.head _)) fuel kind f s hs
+    obtain ⟨P, fuel, dbg, kind, f⟩ := x
+    have h1 := idle_preserved P (hfix (P, fuel, dbg, kind, f) (List.Mem.head _)) fuel dbg kind f s hs
     have h2 := ih (fun y hy => hfix y (List.Mem.tail _ hy)) _ h1.1
     exact ⟨h2.1, h2.2.trans h1.2⟩
 
@@ -174,17 +223,17 @@ set_option maxRecDepth 8000 in
 /-- before gomacro a642365: after the aborted top-level evaluation f0, the later evaluation f2 (which does not
     panic) recovers the stale value 5; a fresh interpreter logs nil.  (finding `stale-panic-recovered-by-later-evaluation`) -/
 theorem stale_panic_observable_before_fix :
-    (evalTop (exStale false) 30 .topCode 2 (evalTop (exStale false) 30 .topCode 0 {}).2).2.log = [5] ∧
-    (evalTop (exStale false) 30 .topCode 2 {}).2.log = [0] := by
-  simp [evalTop, callFn, execFn, runOps, runDefers, exStale, Prog.withDefers, Op.isDfr, advance, nextRound, U0, nilStmtCrash, recoverOp]
+    (evalTop (exStale false) 30 false .topCode 2 (evalTop (exStale false) 30 false .topCode 0 {}).2).2.log = [5] ∧
+    (evalTop (exStale false) 30 false .topCode 2 {}).2.log = [0] := by
+  simp [evalTop, applyDebugOp, callFn, execFn, runOps, runDefers, exStale, Prog.withDefers, Op.isDfr, advance, nextRound, U0, nilStmtCrash, recoverOp]
 
 set_option maxRecDepth 8000 in
 /-- with the code as it is now the later evaluation is unaffected -/
 theorem stale_panic_gone :
-    (evalTop (exStale true) 30 .topCode 2 (evalTop (exStale true) 30 .topCode 0 {}).2).2.log = [0] ∧
-    (evalTop (exStale true) 30 .topCode 0 {}).1 = .panic 5 ∧
-    (evalTop (exStale true) 30 .topCode 0 {}).2.run.panicFun = none := by
-  simp [evalTop, callFn, execFn, runOps, runDefers, exStale, Prog.withDefers, Op.isDfr, advance, nextRound, U0, nilStmtCrash, recoverOp]
+    (evalTop (exStale true) 30 false .topCode 2 (evalTop (exStale true) 30 false .topCode 0 {}).2).2.log = [0] ∧
+    (evalTop (exStale true) 30 false .topCode 0 {}).1 = .panic 5 ∧
+    (evalTop (exStale true) 30 false .topCode 0 {}).2.run.panicFun = none := by
+  simp [evalTop, applyDebugOp, callFn, execFn, runOps, runDefers, exStale, Prog.withDefers, Op.isDfr, advance, nextRound, U0, nilStmtCrash, recoverOp]
 
 /-- f0: `defer f1(); panic(5)`, f1: `f2()`, f2: `defer f3(); panic(6)`, f3: `rec(recover())` -/
 def exNested (saves : Bool) : Prog :=
@@ -195,8 +244,8 @@ def exNested (saves : Bool) : Prog :=
 set_option maxRecDepth 8000 in
 /-- before a642365 the outer panic 5 was dropped (finding `nested-recover-swallows-outer-panic`); now it propagates as in Go -/
 theorem nested_recover_outer_panic :
-    (evalTop (exNested false) 30 .callF 0 {}).1 = .ok ∧ (evalTop (exNested true) 30 .callF 0 {}).1 = .panic 5 := by
-  simp [evalTop, callFn, execFn, runOps, runDefers, exNested, Prog.withDefers, Op.isDfr, advance, nextRound, U0, nilStmtCrash, recoverOp]
+    (evalTop (exNested false) 30 false .callF 0 {}).1 = .ok ∧ (evalTop (exNested true) 30 false .callF 0 {}).1 = .panic 5 := by
+  simp [evalTop, applyDebugOp, callFn, execFn, runOps, runDefers, exNested, Prog.withDefers, Op.isDfr, advance, nextRound, U0, nilStmtCrash, recoverOp]
 
 /-- f0: 4 statements (past the first phase of the small unrolling `U1`), `try(f1)`, return; f1: `panic(7)`.
     The compiled `try` recovers the panic of `f1`, whose `exec` had set `run.Interrupt = nil`; `f0` is in its
@@ -209,13 +258,17 @@ def exNilStmt : Prog :=
 
 set_option maxRecDepth 8000 in
 theorem nil_statement_crash :
-    (evalTop exNilStmt 30 .callF 0 {}).1 = .panic crash ∧ (evalTop exNilStmt 30 .callF 0 {}).2.log = [7] := by
-  simp [evalTop, callFn, execFn, runOps, runDefers, exNilStmt, Prog.withDefers, Op.isDfr, advance, nextRound, nilStmtCrash, recoverOp, crash]
+    (evalTop exNilStmt 30 false .callF 0 {}).1 = .panic crash ∧ (evalTop exNilStmt 30 false .callF 0 {}).2.log = [7] := by
+  simp [evalTop, applyDebugOp, callFn, execFn, runOps, runDefers, exNilStmt, Prog.withDefers, Op.isDfr, advance, nextRound, nilStmtCrash, recoverOp, crash]
 
 /-! ## obligations over the regenerated table `Gen/RunFields.lean` -/
 
 /-- the executor reinstates `Panic`/`PanicFun` (commit a642365 is present in the tree under test) -/
 theorem saves_panic : Gen.RunFields.savesPanic = true := by decide
+
+/-- `RunExpr` resets and `DebugExpr` arms the debugger mode BEFORE running the code, by plain statements -/
+theorem debug_op_calls : Gen.RunFields.debugOpCalls =
+    [("RunExpr", "DebugOpContinue", "before"), ("DebugExpr", "DebugOpStep", "before")] := by decide
 
 /-- every read / write site of the fields whose staleness matters (`PanicFun`, `DeferOfFun`, `CurrEnv`, and
     `Panic` outside the debugger's `DebugOp.Panic`): a new reader or writer breaks this obligation and has
